@@ -90,8 +90,9 @@ func crashPoints(evs []Event, rng *rand.Rand, thorough bool, budget int, minEv i
 	last := 0 // index after the last barrier
 	for n := 0; n <= len(evs); n++ {
 		if n > 0 && evs[n-1].Barrier {
+			// the same image as the prefix before the barrier, but not the same moment: calls acknowledged
+			// without a disk write of their own (an empty COMMIT, an unstable WRITE) end exactly here
 			last = n
-			continue // same image as the prefix before the barrier
 		}
 		if n < minEv {
 			continue
@@ -167,6 +168,10 @@ func runCrash(seed int64, nops int, size uint64, prof string, unstable bool, out
 	focusOp := -1
 	if prof == "bigshrink" {
 		script, focusOp = bigShrinkScript(seed, fi.Wtmax)
+		nops = len(script)
+	}
+	if prof == "refused" {
+		script, focusOp = refusedThenCommitScript(seed, fi.Wtmax)
 		nops = len(script)
 	}
 	minEv := 0
@@ -307,6 +312,22 @@ func bigShrinkScript(seed int64, wtmax uint64) ([]Op, int) {
 	c := s.add(Op{Proc: "create", H: "root", Name: "c"})
 	s.add(Op{Proc: "write", H: fmt.Sprintf("@%d", c), Off: 0, Cnt: 2 * 4096, Stable: 2, Data: pat(2*4096, 11)})
 	s.add(Op{Proc: "mkdir", H: "root", Name: "d"})
+	return s.ops, focus
+}
+
+// refusedThenCommitScript: unstable data is pending, a request too large for the journal is refused at commit
+// time, then COMMIT is acknowledged: from then on the data must survive every crash.
+func refusedThenCommitScript(seed int64, wtmax uint64) ([]Op, int) {
+	s := &scripter{}
+	f := s.add(Op{Proc: "create", H: "root", Name: "f"})
+	fh := fmt.Sprintf("@%d", f)
+	s.add(Op{Proc: "write", H: fh, Off: 0, Cnt: 3000, Stable: 2, Data: pat(3000, 1)})
+	s.add(Op{Proc: "write", H: fh, Off: 3000, Cnt: 6000, Stable: 0, Data: pat(6000, int(seed%100)+2)})
+	focus := len(s.ops)
+	n := uint64(560+seed%40) * 4096
+	s.add(Op{Proc: "symlink", H: "root", Name: "big", Data: pat(n, 3)})
+	s.add(Op{Proc: "commit", H: fh})
+	s.add(Op{Proc: "getattr", H: fh})
 	return s.ops, focus
 }
 
